@@ -1,10 +1,10 @@
 SPECIFICATION Spec
 CONSTANTS
-  NPos = 6
-  NPosOne = 6
-  NPosScored = 4
-  ScoreVals = {1, 2}
-  MaxOrderVals = {0, 1}
+  NPos = 9
+  NPosOne = 10
+  NPosScored = 7
+  ScoreVals = {1, 2, 3}
+  MaxOrderVals = {0, 1, 2}
   Variants = {0, 1, 2}
 INVARIANT InvDomain
 INVARIANT InvImplDecl
